@@ -296,6 +296,78 @@ func docxDepthSpecs() []bspec {
 	return out
 }
 
+// ---- block-level containers (w:sdt / w:sdtContent / w:customXml) of the body and of a cell ----
+
+var docxBlockWraps = []string{"w:customXml", "w:sdt", "w:sdtContent"}
+
+// deepDocxBlocks: paragraphs at several depths of a k-deep nest of block-level containers:
+// one before and one after the nest at levels 0, k/4, k/2, k-1 and one at the bottom.
+// Returns the nodes of level 0 and the tokens in document order.
+func deepDocxBlocks(k int, tag string) ([]*Node, []string) {
+	pre, post := map[int][]*Node{}, map[int][]*Node{}
+	var before, after []string
+	seen := map[int]bool{}
+	for i, l := range []int{0, k / 4, k / 2, k - 1} {
+		if l < 0 || (k > 0 && l >= k) || seen[l] {
+			continue
+		}
+		seen[l] = true
+		a, b := fmt.Sprintf("%sa%dx", tag, i), fmt.Sprintf("%sb%dx", tag, i)
+		pre[l] = []*Node{wpara(a)}
+		post[l] = []*Node{wpara(b)}
+		before = append(before, a)
+		after = append([]string{b}, after...)
+	}
+	mid := tag + "midx"
+	kids := nestWith(docxBlockWraps, k, []*Node{wpara(mid)}, pre, post)
+	return kids, append(append(before, mid), after...)
+}
+
+func docxBlockDepthSpecs() []bspec {
+	var out []bspec
+	for _, k := range []int{inlineBound - 1, inlineBound, inlineBound + 1, inlineBound + 2, 4 * inlineBound} {
+		k := k
+		out = append(out, bspec{Name: "docx-block-containers-in-body:" + depthName(k), F: "docx", Seq: "TMDP",
+			Build: func() (*Node, *Node, []*Node, bexpect) {
+				ns, toks := deepDocxBlocks(k, "K")
+				want := append(append([]string{"B001x"}, toks...), "B002x")
+				body := append(append([]*Node{wpara("B001x")}, ns...), wpara("B002x"))
+				return docxDoc(body...), nil, nil, bexpect{Refused: k > inlineBound, Want: want}
+			}})
+	}
+	for _, k := range []int{inlineBound, inlineBound + 1} {
+		k := k
+		out = append(out, bspec{Name: "docx-block-containers-in-table-cell:" + depthName(k), F: "docx", Seq: "TMDLP",
+			Build: func() (*Node, *Node, []*Node, bexpect) {
+				ns, toks := deepDocxBlocks(k, "Q")
+				cell := E("w:tc", ns...)
+				cell.Add(wpara("B004x"))
+				tbl := E("w:tbl", E("w:tr", E("w:tc", wpara("B003x")), cell))
+				want := append(append([]string{"B001x", "B003x"}, toks...), "B004x", "B002x")
+				return docxDoc(wpara("B001x"), tbl, wpara("B002x")), nil, nil, bexpect{Refused: k > inlineBound, Want: want}
+			}})
+		// a table at the bottom of the nest, a paragraph behind the nest
+		out = append(out, bspec{Name: "docx-table-below-block-containers:" + depthName(k), F: "docx", Seq: "TMDLP",
+			Build: func() (*Node, *Node, []*Node, bexpect) {
+				tbl := E("w:tbl", E("w:tr", E("w:tc", wpara("B002x")), E("w:tc", wpara("B003x"))))
+				ns := nestWith(docxBlockWraps, k, []*Node{tbl, wpara("B004x")}, nil, nil)
+				body := append(append([]*Node{wpara("B001x")}, ns...), wpara("B005x"))
+				return docxDoc(body...), nil, nil, bexpect{Refused: k > inlineBound, Want: []string{"B001x", "B002x", "B003x", "B004x", "B005x"}}
+			}})
+	}
+	// containers nested beyond the bound where nothing is decoded - in the properties of a
+	// content control, in a cell of a NESTED table - are skipped: any depth is harmless there
+	out = append(out, bspec{Name: "docx-block-containers-in-sdtPr-and-nested-table:bound+1", F: "docx", Seq: "TMDLP",
+		Build: func() (*Node, *Node, []*Node, bexpect) {
+			junk := nestWith(docxBlockWraps, inlineBound+1, []*Node{wpara("X001x")}, nil, nil)
+			sdt := E("w:sdt", E("w:sdtPr", junk...), E("w:sdtContent", wpara("B002x")))
+			inner := E("w:tbl", E("w:tr", E("w:tc", nestWith(docxBlockWraps, inlineBound+1, []*Node{wpara("X002x")}, nil, nil)...)))
+			tbl := E("w:tbl", E("w:tr", E("w:tc", inner, wpara("B003x"))))
+			return docxDoc(wpara("B001x"), sdt, tbl, wpara("B004x")), nil, nil, bexpect{Want: []string{"B001x", "B002x", "B003x", "B004x"}}
+		}})
+	return out
+}
+
 func odtDepthSpecs() []bspec {
 	var out []bspec
 	for _, k := range []int{inlineBound - 1, inlineBound, inlineBound + 1, inlineBound + 2, 4 * inlineBound} {
@@ -654,6 +726,7 @@ func boundSpecs() []bspec {
 	out = append(out, gridSpecs("docx")...)
 	out = append(out, gridSpecs("odt")...)
 	out = append(out, declSpecs()...)
+	out = append(out, docxBlockDepthSpecs()...) // appended last: the indices of the older documents stay
 	return out
 }
 
